@@ -109,6 +109,7 @@ type obsJ struct {
 }
 
 type caseJ struct {
+	Files  map[string]string `json:"files,omitempty"` // format -> file name the document is written to
 	Stream string  `json:"stream"`
 	Pkgs   []pkgJ  `json:"packages"`
 	Spdx   []obsJ  `json:"spdx"`
@@ -267,8 +268,16 @@ func genPurl(r *rand.Rand, types []string, malformed, hostile bool) *purlJ {
 	return p
 }
 
+// names that collide with what the exporter itself puts into a document: the synthetic root package ("main",
+// SPDXRef-Package-main-<uuid>), the default document name, NOASSERTION, and names that sanitise to the same SPDX id
+var collidingNames = []string{"main", "main-utils", "main_lib", "main/x", "Main", "main-", "NOASSERTION", "SCALIBR-generated SPDX", "Document",
+	"DOCUMENT", "SPDXRef-Document", "Package-main-x", "a b", "a-b", "a_b", "a.b", "SCALIBR", "0"}
+
 func genCase(r *rand.Rand, types []string, stream string) *caseJ {
-	c := &caseJ{Stream: stream}
+	c := &caseJ{Stream: stream, Files: map[string]string{}}
+	for _, f := range append(append([][2]string{}, spdxFormats...), cdxFormats...) {
+		c.Files[f[0]] = fileNameFor(r, f[0], f[1])
+	}
 	n := []int{0, 1, 1, 2, 3, 4, 6, 9, 12}[r.Intn(9)]
 	malformed := stream == "malformed"
 	hostile := stream == "hostile-text"
@@ -298,6 +307,14 @@ func genCase(r *rand.Rand, types []string, stream string) *caseJ {
 		default:
 			j.Purl = genPurl(r, types, malformed && r.Intn(2) == 0, hostile)
 		}
+		if r.Intn(5) == 0 {
+			// collide with the exporter's own identifiers
+			nm := S(pick(r, collidingNames))
+			j.Name = nm
+			if j.Purl != nil && !malformed {
+				j.Purl.Name = nm
+			}
+		}
 		c.Pkgs = append(c.Pkgs, j)
 	}
 	if stream == "duplicates" && len(c.Pkgs) > 0 {
@@ -310,8 +327,30 @@ func genCase(r *rand.Rand, types []string, stream string) *caseJ {
 
 // ---------------------------------------------------------------- run
 
-var spdxFormats = [][2]string{{"spdx23-json", "out.spdx.json"}, {"spdx23-yaml", "out.spdx.yml"}, {"spdx23-tag-value", "out.spdx"}}
-var cdxFormats = [][2]string{{"cdx-json", "out.cdx.json"}, {"cdx-xml", "out.cdx.xml"}}
+var spdxFormats = [][2]string{{"spdx23-json", ".spdx.json"}, {"spdx23-yaml", ".spdx.yml"}, {"spdx23-tag-value", ".spdx"}}
+var cdxFormats = [][2]string{{"cdx-json", ".cdx.json"}, {"cdx-xml", ".cdx.xml"}}
+
+// The file name is the caller's choice: everything the extractors' FileRequired documents is used (any base name
+// with the format's compound extension, case-insensitively; bom.json / bom.xml for CycloneDX), in sub-directories too.
+var fileStems = []string{"out", "scan-2026.09.30", "host01.example.com", "app-v1.2", ".hidden", "UPPER.Case", "with space", "a.b.c.d", "sbom", "x.json", "é"}
+
+func fileNameFor(r *rand.Rand, format, ext string) string {
+	name := pick(r, fileStems) + ext
+	switch r.Intn(8) {
+	case 0:
+		name = strings.ToUpper(name)
+	case 1:
+		if format == "cdx-json" {
+			name = pick(r, []string{"bom.json", "BOM.json"})
+		} else if format == "cdx-xml" {
+			name = pick(r, []string{"bom.xml", "Bom.XML"})
+		}
+	}
+	if r.Intn(3) == 0 {
+		name = filepath.Join(pick(r, []string{"sub", "a.b/c", "reports/2026.10"}), name)
+	}
+	return name
+}
 
 func safe(f func()) (msg string) {
 	defer func() {
@@ -374,11 +413,18 @@ func runCase(c *caseJ, tmp string) {
 	sr := &scalibr.ScanResult{Version: "verif", StartTime: time.Unix(1700000000, 0), EndTime: time.Unix(1700000001, 0),
 		Status: &plugin.ScanStatus{Status: plugin.ScanStatusSucceeded}, Inventory: inventory.Inventory{Packages: pkgs}}
 	c.Spdx, c.Cdx = nil, nil
+	fileOf := func(format, ext string) string {
+		if n, ok := c.Files[format]; ok && n != "" {
+			return n
+		}
+		return "out" + ext
+	}
 	for _, f := range spdxFormats {
+		f = [2]string{f[0], fileOf(f[0], f[1])}
 		o := obsJ{Format: f[0], File: f[1]}
 		dir := filepath.Join(tmp, f[0])
 		os.RemoveAll(dir)
-		os.MkdirAll(dir, 0o755)
+		os.MkdirAll(filepath.Dir(filepath.Join(dir, f[1])), 0o755)
 		var doc *spdx.Document
 		if m := safe(func() { doc = converter.ToSPDX23(sr, converter.SPDXConfig{}) }); m != "" {
 			o.Err = "ToSPDX23 " + m
@@ -397,10 +443,11 @@ func runCase(c *caseJ, tmp string) {
 		c.Spdx = append(c.Spdx, o)
 	}
 	for _, f := range cdxFormats {
+		f = [2]string{f[0], fileOf(f[0], f[1])}
 		o := obsJ{Format: f[0], File: f[1]}
 		dir := filepath.Join(tmp, f[0])
 		os.RemoveAll(dir)
-		os.MkdirAll(dir, 0o755)
+		os.MkdirAll(filepath.Dir(filepath.Join(dir, f[1])), 0o755)
 		var bom *cyclonedx.BOM
 		if m := safe(func() { bom = converter.ToCDX(sr, converter.CDXConfig{ComponentName: "verif", ComponentVersion: "0"}) }); m != "" {
 			o.Err = "ToCDX " + m
